@@ -16,10 +16,10 @@ SPEC = {
         {'pkg': 'commit', 'src': 'harness/commit/c01_test.go', 'test': 'TestVerif_C01_quorum', 'fakes': True,
          'sinks': {'C01_quorum': 'quorum_judge'}, 'n': {'quick': 100, 'thorough': 2000}},
     ],
-    'known': {},   # F03 (discovery on-ramp threshold without agreed dest f) is repaired by fixes/F03.patch, not recorded
+    'known': {},   # F26 (off-ramp numbers agreed at the key chain f) is repaired by fixes/F26.patch; F03 (discovery on-ramp threshold without agreed dest f) is repaired by fixes/F03.patch, not recorded
     'rule': 'mr: DONs of 4..13 oracles (random ids), F = (N-1)/3 (plus F in {0,-1,random}), destination + 1..4 source chains with '
             'f_k in 1..3 and random reader sets; per chain and field (root / on-ramp max / off-ramp next / RMN remote config / fChain) '
-            'the number of oracles voting value A is drawn from {0, thr-1, thr, thr+1, all} and a competing value B gets its own such count '
+            'the number of oracles voting value A is drawn from {0, thr-1, thr, thr+1, all} (off-ramp next: thr = the key chain threshold, the destination threshold, or any value from 2*min(f_k,f_dest)+1 to 2*max(f_k,f_dest)+1; class +fk!=fd) and a competing value B gets its own such count '
             '(B differs from A in exactly one component: root address / start / end / hash; RMN config signer key, node index, F, digest, version, address, report version; discovery address first byte / last byte / extra leading or trailing zero byte), the first holder of B being the reader with the lowest or the highest oracle id, observations handed over in ascending oracle id order (libocr) or shuffled; Byzantine stream: duplicate entries, foreign or unknown chains, off-ramp / RMN data '
             'from non-destination oracles, fChain claims <= 0 or inflated up to 2^63-1, malformed RMN configs, nil-vs-empty addresses, '
             'retry query, missing destination config, unknown oracle id. Every observation goes through Processor.ValidateObservation, the accepted '
@@ -40,8 +40,10 @@ SPEC = {
                     'Go maps inside an observation (FChain, Addresses[contract]) have unique keys by construction'],
     'level_text': 'Proof: Coq theorems over the executable model of aggregateObservations / ValidateObservation / getConsensusObservation / '
                   'discovery Outcome for all F, role assignments and validated observation lists with distinct oracles: agreed f has 2F+1 distinct '
-                  'supporters and is unique; a per-chain value is in the outcome iff its f is agreed and it is the unique value with 2f+1 distinct '
-                  'designated reporters; one oracle contributes at most one vote per chain and field; at most f oracles cannot account for an agreed value; '
+                  'supporters and is unique; a per-chain value is in the outcome iff the f of the chain it is READ FROM is agreed and it is the unique value with 2f+1 distinct '
+                  'designated reporters — f of the key chain for roots / on-ramp numbers / RMN config, f of the destination for off-ramp next numbers of every source key '
+                  '(as repaired by fixes/F26.patch; C01_offramp_key_f_unfixed_refuted: at the key chain f three destination readers, |B| = f_dest, alone added a number or blocked the agreement of 2*f_dest+1 others); '
+                  'one oracle contributes at most one vote per chain and field; at most f oracles cannot account for an agreed value (C01_byzantine, C01_byzantine_offramp); '
                   'same for the five discovered address maps. Correspondence: the real functions run against the model and an independent '
                   'distinct-oracle counting property on generated vote vectors every run',
     'level_note': 'Trusted: Coq kernel, hand-written model, differential harness. No axioms. Plugin level: commit.Plugin built by NewPlugin '
